@@ -22,7 +22,7 @@ def _within(inner, outer):
 
 MIX = VOpq(None, "mix")
 # ghost flags that must survive joins (a may-have-happened on some path): merged by max
-STICKY_GHOST = ("buf-write-failed", "c07-unresolved", "c07-foreign-push")
+STICKY_GHOST = ("buf-write-failed", "c07-unresolved", "c07-foreign-push", "c12-acc-lost", "c03-bad", "c15-bad")
 
 
 class Joiner:
@@ -34,6 +34,7 @@ class Joiner:
         self.shared = set()
         self.int_leaves = []
         self.ty_facts = []
+        self.sib_anchors = {}
         self.collect_leaves = False
         self.jroots = 0
         self.why = []
@@ -181,7 +182,16 @@ class Joiner:
             if a.kind != b.kind or a.defn != b.defn or len(a.elems) != len(b.elems):
                 self.changed = True
                 return MIX
-            return VAgg(a.kind, a.defn, [self.jval(x, y) for x, y in zip(a.elems, b.elems)])
+            n0 = len(self.news)
+            kids = [self.jval(x, y) for x, y in zip(a.elems, b.elems)]
+            if len(self.news) > n0 and len(kids) <= 8:
+                # siblings of a generalised field that are one common symbol on both sides are natural anchors for it
+                fresh = [t[0] for t in self.news[n0:]]
+                for x, y in zip(a.elems, b.elems):
+                    if isinstance(x, VInt) and x == y and x.lin.single() is not None and x.lin.c == 0 and x.lin.single()[1] == 1:
+                        for f_ in fresh:
+                            self.sib_anchors.setdefault(f_, []).append(x.lin.single()[0])
+            return VAgg(a.kind, a.defn, kids)
         if ta is VEnum:
             if a.defn != b.defn:
                 self.changed = True
@@ -386,7 +396,11 @@ class Joiner:
             for x in la.syms() + lb.syms() + list(self.ip.cparams.values()):
                 if self.common(x) and x not in anchors:
                     anchors.append(x)
-            for r in anchors[:6]:
+            anchors = anchors[:6]
+            for x in self.sib_anchors.get(s, ())[:4]:
+                if self.common(x) and x not in anchors:
+                    anchors.append(x)
+            for r in anchors:
                 rl = Lin.sym(r)
                 da = A.interval(la - rl)
                 db = B.interval(lb - rl)
